@@ -244,6 +244,9 @@ def _small_c14(tier, seed, shard=(0, 1)):
                 cases.append((entry, [(off, v)]))
         for _ in range(10 if tier == "quick" else 100):
             cases.append((entry, [(rnd.randrange(24), rnd.randrange(256)) for _ in range(rnd.randint(2, 6))]))
+        # the damaged start sector becomes another file's start sector (the files of this volume start in sectors 3..9)
+        for v in range(3, 10):
+            cases.append((entry, [(20, v)]))
         # the damaged name becomes a sibling's name (second letter B/C/D = 12/13/14)
         for v in (12, 13, 14):
             cases.append((entry, [(1, v)]))
@@ -345,6 +348,7 @@ def _small_c15(tier, seed, shard=(0, 1)):
     cuts = []
     for s in range(3, 15):
         cuts += [s * 8192, s * 8192 + 1, s * 8192 + 139, s * 8192 + 140, s * 8192 + 141]
+    cuts += [17 * 8192 + 5, 20 * 8192 + 100]
     rnd = random.Random(6000 + seed)
     cuts += [rnd.randrange(3 * 8192, 14 * 8192) for _ in range(10 if tier == "quick" else 120)]
     if tier == "quick":
@@ -353,8 +357,16 @@ def _small_c15(tier, seed, shard=(0, 1)):
     model4 = {"partitions": [{"size_sectors": 128, "volumes": [
         _vol("VOL", [_sample("X", 3000, 7, sectors=[5]), _sample("Y", 6000, 8, sectors=[6, 7]), _sample("Z", 5000, 9, sectors=[10, 11])],
              dir_sectors=[9])]}]}
+    # a pair whose LEFT half lies before its RIGHT half (a cut inside R leaves L readable), and a forward-jumping chain with complete
+    # files stored in the gap and listed after it
+    model5 = {"partitions": [{"size_sectors": 128, "volumes": [
+        _vol("VOL", [_sample("P -L", 5000, 14, sectors=[6, 7]), _sample("P -R", 5000, 15, sectors=[10, 11]), _sample("Q", 10, 16, sectors=[5])],
+             dir_sectors=[4])]}]}
+    model6 = {"partitions": [{"size_sectors": 128, "volumes": [
+        _vol("VOL", [_sample("JUMP", 14000, 17, sectors=[5, 6, 20, 21]), _sample("G1", 3000, 18, sectors=[8]), _sample("G2", 6000, 19, sectors=[10, 11])],
+             dir_sectors=[4])]}]}
     k = 0
-    for m, dsec in ((model, 3), (model2, 9), (model4, 9)):
+    for m, dsec in ((model, 3), (model2, 9), (model4, 9), (model5, 4), (model6, 4)):
         # cuts inside the 24-byte entries of the volume's file table (after the table-end probe at entry+8, before the entry's end)
         inside = [dsec * 8192 + 24 * j + o for j in range(4) for o in ((9, 10, 23) if tier == "quick" else (1, 8, 9, 10, 11, 16, 20, 23))]
         for c in cuts + inside:
@@ -423,6 +435,24 @@ def _build_c16(inputs):
     L = _lib()
 
     def run():
+        if inputs.get("by_path"):
+            # actions given a PATH string: the answer depends on the bytes found at that path now, not on what was there before
+            with L.Workdir() as w:
+                first = _make_image(L, w, inputs["image"])
+                other_dir = w.sub("other")
+                with L.Workdir() as w2:
+                    second_src = _make_image(L, w2, inputs["second"])
+                    second_bytes = open(second_src, "rb").read()
+                for op in inputs["ops"][:-1]:
+                    _do_op(L, first, op, w, "p_first")
+                with open(first, "wb") as f:
+                    f.write(second_bytes)
+                got = [_do_op(L, first, inputs["ops"][-1], w, "p_second")]
+                fresh_path = os.path.join(other_dir, "fresh" + os.path.splitext(first)[1])
+                with open(fresh_path, "wb") as f:
+                    f.write(second_bytes)
+                want = [_do_op(L, fresh_path, inputs["ops"][-1], w, "p_fresh")]
+                return {"shared": got, "fresh": want, "image_unchanged": True, "by_path": True}
         with L.Workdir() as w:
             path = _make_image(L, w, inputs["image"])
             with open(path, "rb") as f:
@@ -451,7 +481,10 @@ def _oracle_c16(inputs, kind, val, env):
             if what == "files":
                 diff = [p for p in w_.get("files", {}) if g.get("files", {}).get(p) != w_["files"][p]][:2]
                 detail = f": {diff} sizes {[len(g.get('files', {}).get(p, b'')) for p in diff]} vs {[len(w_['files'][p]) for p in diff]}"
-            bad.append(f"operation-{k}-{inputs['ops'][k][0]}-same-as-on-a-fresh-object({what}{detail}; after {inputs['ops'][:k]})")
+            if val.get("by_path"):
+                bad.append(f"same-answer-for-the-bytes-now-at-the-path({what}{detail}; after {inputs['ops'][:-1]} on the file that was there before)")
+            else:
+                bad.append(f"operation-{k}-{inputs['ops'][k][0]}-same-as-on-a-fresh-object({what}{detail}; after {inputs['ops'][:k]})")
             break
     return bad
 
@@ -464,6 +497,15 @@ def _small_c16(tier, seed, shard=(0, 1)):
         {"kind": "cdda", "hostile": True, "paths": [""]},
         {"kind": "roland", "model": _base_roland(), "paths": ["", "V1", "V1/P1", "V1/P1/S0", "_Orphan_perf", "bad"]},
     ]
+    # one stored name used for a FILE in one partition and for a DIRECTORY in another (their export names differ: 'SNARE-' / 'SNARE-0')
+    twin = {"partitions": [{"volumes": [_vol("DRUMS", [_sample("SNARE-", 40, 61), _sample("A..", 30, 62)])]},
+                           {"volumes": [_vol("SNARE-", [_sample("HAT", 20, 63)]), _vol("A..", [_sample("B", 10, 64)])]}]}
+    images.append({"kind": "akai", "model": twin, "paths": ["", "A:", "B:", "B:/SNARE-", "A:/DRUMS"]})
+    if shard[0] == 0:
+        other = {"partitions": [{"volumes": [_vol("OTHER", [_sample("ZAP", 33, 71), _sample("ZIP", 12, 72)])]}]}
+        for first_ops in ([["ls", ""]], [["export"]], [["ls", "A:/VOL A"], ["ls", ""]]):
+            for last in (["ls", ""], ["ls", "A:/OTHER"], ["export"]):
+                yield {"by_path": True, "image": {"kind": "akai", "model": _base_akai()}, "second": {"kind": "akai", "model": other}, "ops": first_ops + [last]}
     k = 0
     maxlen = 2 if tier == "quick" else 3
     for im in images:
@@ -490,7 +532,8 @@ CONCRETE["e2e:C16"] = {
     "build": _build_c16, "small": _small_c16, "oracle": _oracle_c16, "shards": 8,
     "nontrivial": lambda i, s: s["kind"] == "return",
     "bound": "sequences of 2 (quick) / 3 (thorough) operations from {ls at 3..6 paths incl. an invalid one, export} on ONE opened image "
-             "object versus a fresh object per operation; AKAI, CDDA and Roland images; the image file compared before/after",
+             "object versus a fresh object per operation; AKAI (incl. one stored name used for a file and for a directory), CDDA and Roland images; the image file "
+             "compared before/after; 9 sequences through PATH strings with the file at the path replaced by another image before the last operation",
     "timeout_s": 120.0, "budget_quick": 250, "budget_thorough": 1500,
 }
 
@@ -735,6 +778,8 @@ def _build_c13(inputs):
                 b = bytearray(raw)
                 for (off, val, width) in inputs["patch"]:
                     b[off:off + width] = int(val).to_bytes(width, "little")
+                for (off, n, word) in inputs.get("fill", []):
+                    b[off:off + 2 * n] = int(word).to_bytes(2, "little") * n         # a whole table region overwritten with one word
                 p = w.file("img.s7xx", bytes(b))
                 paths = ["", "V1", "V1/P1", "V1/P1/S0", "_Orphan_perf"]
             else:
@@ -786,6 +831,9 @@ def _small_c13(tier, seed, shard=(0, 1)):
     for off in (276, 278, 280, 282, 284):
         for v in (0, 1, 0x7FFF, 0xFFFF):
             cases.append({"kind": "roland", "patch": [[off, v, 2]]})
+    # the FAT body (entries 2..) overwritten with ONE word: every entry links into the same ring / the same cluster
+    for word in (0x0505, 0xE5E5, 0x0002, 0xFFF7):
+        cases.append({"kind": "roland", "patch": [], "fill": [[FAT + 4, 0xFFF0, word]]})
     areas = [0xa0800, 0xa1800, 0xa5800, 0xad800, 0xcd800, 0x10d800, 0x115800, 0x155800, 0x1d5800, 0x255800]
     for _ in range(20 if tier == "quick" else 300):
         cases.append({"kind": "roland", "patch": [[rnd.choice(areas) + rnd.randrange(0, 0x80), rnd.randrange(256), 1] for _ in range(rnd.randint(1, 4))]})
